@@ -329,6 +329,21 @@ let do_sb line =
       (match K.sbrt_inv m src (nat_of_int (int_of_string c1)) with None -> "I:err" | Some d -> "I:" ^ dec_of d)
   | _ -> "badcase"
 
+(* ---- alphabet header (C12):  al e <symbols>  |  al d <cap> <hex bytes> ---- *)
+let do_al args =
+  let show = function
+    | K.AOk a -> "D:" ^ dec_of a
+    | K.AErrSize -> "D:size"
+    | K.APanic -> "D:panic" in
+  match args with
+  | "e" :: syms ->
+    let a = List.map ns (List.filter (fun s -> s <> "-") syms) in
+    (match K.alphabet_image a with
+     | None -> if List.length a > 256 then "E:err" else "E:panic"
+     | Some b -> "E:" ^ hex_of_bytes b)
+  | ["d"; cap; hx] -> show (K.alphabet_parse (nat_of_int (int_of_string cap)) (if hx = "-" then [] else bytes_of_hex hx))
+  | _ -> "badcase"
+
 (* ---- FPAQ (C12):  fp <hex data> ; <hex stream or -> ---- *)
 let do_fp line =
   match split_on_semis line with
@@ -388,6 +403,7 @@ let dispatch line =
   | "hd" :: _ -> do_hd line
   | "zr" :: _ -> do_zr line
   | "sb" :: _ -> do_sb line
+  | "al" :: args -> do_al args
   | "fp" :: _ -> do_fp line
   | "ct" :: _ -> do_ct line
   | "xx" :: args -> do_xx args
